@@ -2,14 +2,8 @@
 
 
 def classify(case):
-    # the one recorded defect class: Download reports success and the target is the expected content followed by a
-    # non-empty stale tail (position reset to 0 without truncation when the server ignored Range)
-    i = case.get("input") or {}
-    o = case.get("observed") or {}
-    t = o.get("target")
-    c = i.get("content")
-    if o.get("err") == "none" and t is not None and c is not None and len(t) > len(c) and t.startswith(c):
-        return "stale-tail"
+    # no recorded finding: the stale-tail defect was repaired in /repo (commit adc145b, `fixed:` in KNOWN_FINDINGS);
+    # a success with a target that is not exactly the expected content is a VIOLATION again
     return None
 
 
@@ -30,7 +24,7 @@ SPEC = dict(
           "chunk after n bytes (non-retryable copy error), connection dropped before any response, non-HTTP garbage, 302 "
           "redirects, 5xx, 4xx/402/201; scripts of 0..6 items, then dropped connections; pre-existing .partial: none, empty, "
           "correct prefix, complete, wrong bytes, over-long (correct + junk, random); declared size = length of the content "
-          "(90%), 0 (5%) or inconsistent (5%); LeavePartialOnError on/off; 9 fixed corner cases first. Compared: error class "
+          "(90%), 0 (5%) or inconsistent (5%); LeavePartialOnError on/off; 9 fixed corner cases first (ids 7 and 8: the former stale-tail inputs, regression). Compared: error class "
           "(nil / HashError / other), presence and full content of the target, presence of .partial. Non-trivial = at "
           "least two requests served, or a non-empty partial file and one request."),
     exhaustive=dict(quick=False, thorough=False),
@@ -40,6 +34,6 @@ SPEC = dict(
         "net/http client and server, httputil.ShouldRetryError classification, gopkg.in/retry.v1: modelled by their observable effect per request (EOF before response = retryable, malformed response = not retryable, unexpected EOF in body = retryable, malformed chunk = not retryable, redirect followed inside the attempt); validated only by the differential run",
     ],
     assumptions=["PARTIAL: the HTTP stack, the retry classification and SHA3 are modelled, not verified; local file system errors (open/seek/truncate/rename/sync), context cancellation, the transfer speed monitor, rate limiting, the download cache and deltas are outside the model (cache and deltas are switched off in the driver).",
-                 "the full statement (success => target digest matches) is refuted on the model and on the real code (KNOWN_FINDINGS key stale-tail, C31_target_only_if_match_refuted); proved: failure => no target, success => target starts with the expected content, the full conclusion under the guard `no body longer than the declared size, 206 only when the range is honoured, declared size > 0 and consistent`, and the full conclusion without any guard for the repaired code (notes/C31-fix.diff)",
+                 "the model is the code since commit adc145b (file truncated when the server ignores Range); the full statement is proved with no guard and for every declared size incl. 0 (C31_target_only_if_match, C31_failure_leaves_no_target); C31_before_fix_refuted keeps the historical counterexample for the code before the repair; driver cases 7 and 8 are the regression inputs",
                  "retry strategy is count-limited in model and driver (the 90 s time limit of downloadRetryStrategy only ends the loop earlier, which is one of the modelled budgets)"],
 )
